@@ -361,9 +361,19 @@ func (a *sparseArrayObject) _defineIdxProperty(idx uint32, desc PropertyDescript
 					a.length = idx + 1
 				}
 			} else {
-				a.val.self.(*arrayObject).values[idx] = prop
+				// switched to the standard storage, a is no longer in use
+				ar := a.val.self.(*arrayObject)
+				ar.values[idx] = prop
+				ar.objCount++
+				if _, ok := prop.(*valueProperty); ok {
+					ar.propValueCount++
+				}
+				return true
 			}
 		} else {
+			if _, ok := existing.(*valueProperty); ok {
+				a.propValueCount--
+			}
 			a.items[i].value = prop
 		}
 		if _, ok := prop.(*valueProperty); ok {
